@@ -170,8 +170,8 @@ def flags(ty, v, direct=False):
 # ------------------------------------------------------------------------------------------ reference encoder
 
 class Opts:
-    def __init__(self, indef=False, wide=0, salt=0):
-        self.indef, self.wide, self.salt = indef, wide, salt
+    def __init__(self, indef=False, wide=0, salt=0, wrap_indef=False):
+        self.indef, self.wide, self.salt, self.wrap_indef = indef, wide, salt, wrap_indef
         self.n = 0
 
 
@@ -269,6 +269,9 @@ def py_encode(ty, v, o=None, mut=None):
             body = (b"\x80" if enc == "a" else b"\xa0")
         else:
             body = enc_body(enc, var.fields, v[2], o, drop, fm)
+        if o.wrap_indef:
+            # the two-element wrapper as an indefinite-length array (rejected by the generated decoder: K8)
+            return enc_tag(tag, o) + b"\x9f" + head(0, idx, o) + enc_tag(vtag, o) + body + b"\xff"
         return enc_tag(tag, o) + head(4, 2, o) + head(0, idx, o) + enc_tag(vtag, o) + body
     raise ValueError(k)
 
@@ -565,6 +568,9 @@ def core_schemas(rng):
     S.append(t_en([Variant(0), Variant(1, "p", [F(0, t_int("u8"))]), Variant(2, "n", [F(0, o8()), F(1, o8())])]))
     S.append(t_en([Variant(0), Variant(1, "p", [F(0, o8()), F(2, o8())]), Variant(5, "n", [F(1, t_int("u8"))], enc="a")], enc="m"))
     S.append(t_en([Variant(0, tag=8), Variant(1, "p", [F(0, t_int("u8"), tag=2)], tag=9, enc="m")], tag=7))
+    # explicit enum-level encoding against the opposite explicit variant-level encoding (fields, gaps, optionals)
+    S.append(t_en([Variant(0, "n", [F(0, t_int("u8")), F(2, o8())], enc="a"), Variant(1, "p", [F(1, t_int("u16")), F(0, o8())]), Variant(2, enc="a")], enc="m"))
+    S.append(t_en([Variant(0, "n", [F(0, t_int("u8")), F(2, o8())], enc="m"), Variant(1, "p", [F(1, t_int("u16")), F(0, o8())]), Variant(2, enc="m")], enc="a"))
     S.append(t_en([Variant(0), Variant(3), Variant(24)], index_only=True))
     S.append(t_en([Variant(1, "n", []), Variant(0, "p", [])]))
     S.append(t_en([Variant(0, "p", [F(0, t_int("u32"), codec="x"), F(1, o8())]), Variant(1, "n", [F(3, t_int("u32"), codec="x")], enc="m")]))
